@@ -59,9 +59,10 @@ Fixpoint find_obs {A} (i : nat) (l : list (nat * A)) : option A :=
   end.
 
 (* ---------------- Document.paths() / paths_from_group ---------------- *)
+(* arcs under a non-identity matrix: end points only (their radii / rotation are C10's) *)
 Definition entry_close (tol : Qc) (m o : obs_entry) : bool :=
   let '(i, s, M) := m in let '(j, t, M') := o in
-  Nat.eqb i j && segs_close tol true s t && mat_close tol M M'.
+  Nat.eqb i j && segs_close tol (is_identity M) s t && mat_close tol M M'.
 
 (* tie: the model of the implementation predicts the observation, in order *)
 Definition tie_entries (tol : Qc) (model obs : option (list obs_entry)) : bool :=
@@ -100,8 +101,12 @@ Definition count_rendered (l : list (nat * option (list qseg) * qmat)) : nat :=
 Definition code (tie : bool) (count_ok : bool) (m : nat) : nat :=
   ((if tie then 0 else 1) + (if count_ok then 0 else 2) + 4 * m)%nat.
 
-Definition check_document (c : cfg) (tol : Qc) (tree : qnode) (obs : option (list obs_entry)) : nat :=
-  let tie := tie_entries tol (doc_paths N c tree) obs in
+(* [tree]: the document as the SVG grammar reads it (reference); [itree]: the
+   same document with the `points` attributes as the implementation's own
+   tokeniser (the COORD_PAIR_TMPLT regular expression, an oracle of the model)
+   returns them — the tree the implementation model is run on *)
+Definition check_document (c : cfg) (tol : Qc) (tree itree : qnode) (obs : option (list obs_entry)) : nat :=
+  let tie := tie_entries tol (doc_paths N c itree) obs in
   let refl := ref_paths N tree in
   match obs with
   | None => code tie false (mask (map (fun _ => false) refl))
@@ -109,10 +114,10 @@ Definition check_document (c : cfg) (tol : Qc) (tree : qnode) (obs : option (lis
       code tie (Nat.eqb (length o) (count_rendered refl)) (mask (map (ref_elem_ok tol o) refl))
   end.
 
-Definition check_from_group (c : cfg) (recursive : bool) (tol : Qc) (tree : qnode) (target : position)
+Definition check_from_group (c : cfg) (recursive : bool) (tol : Qc) (tree itree : qnode) (target : position)
            (obs : option (list obs_entry)) : nat :=
-  let tie := tie_entries tol (if recursive then doc_paths_from_group N c tree target
-                              else doc_paths_from_group_nr N c tree target) obs in
+  let tie := tie_entries tol (if recursive then doc_paths_from_group N c itree target
+                              else doc_paths_from_group_nr N c itree target) obs in
   match (if recursive then ref_from_group N tree target else ref_from_group_nr N tree target) with
   | None => code tie true 0
   | Some outs =>
@@ -133,6 +138,15 @@ Definition tie_plain (tol : Qc) (model obs : option (list obs_plain)) : bool :=
   | Some l, Some l' => lclose (plain_close tol) l l'
   | _, _ => false
   end.
+(* the same with arcs compared fully only for the ids [fullf] accepts *)
+Definition tie_plain_f (tol : Qc) (fullf : nat -> bool) (model obs : option (list obs_plain)) : bool :=
+  match model, obs with
+  | None, None => true
+  | Some l, Some l' =>
+      lclose (fun m o : obs_plain => Nat.eqb (fst m) (fst o)
+                                     && segs_close tol (fullf (fst m)) (snd m) (snd o)) l l'
+  | _, _ => false
+  end.
 
 Definition plain_elem_ok (tol : Qc) (obs : list obs_plain) (ka : kind * @attrs Qc) : bool :=
   match shape_spec N (fst ka) (snd ka) with
@@ -145,8 +159,8 @@ Definition plain_elem_ok (tol : Qc) (obs : list obs_plain) (ka : kind * @attrs Q
 Definition count_plain (l : list (kind * @attrs Qc)) : nat :=
   length (filter (fun ka => match shape_spec N (fst ka) (snd ka) with Some _ => true | None => false end) l).
 
-Definition check_svg2paths (c : cfg) (tol : Qc) (tree : qnode) (obs : option (list obs_plain)) : nat :=
-  let tie := tie_plain tol (svg2paths_model N c tree) obs in
+Definition check_svg2paths (c : cfg) (tol : Qc) (tree itree : qnode) (obs : option (list obs_plain)) : nat :=
+  let tie := tie_plain tol (svg2paths_model N c itree) obs in
   let refl := preorder tree in
   match obs with
   | None => code tie false (mask (map (fun _ => false) refl))
@@ -168,15 +182,24 @@ Definition sax_entry_close (tol : Qc) (m o : nat * list qseg * option qmat) : bo
    obs_flat: flatten_all_paths().  want_mat = false: ties (1, 2) + 4 * mask of
    the reference elements whose geometry is not returned; want_mat = true:
    4 * mask of the elements whose recorded matrix is not the reference's *)
-Definition check_sax (c : cfg) (want_mat : bool) (tol : Qc) (tree : qnode)
+Definition check_sax (c : cfg) (want_mat : bool) (tol : Qc) (tree itree : qnode)
            (obs_parse : option (list (nat * list qseg * option qmat)))
            (obs_flat : option (list obs_plain)) : nat :=
-  let tie1 := match sax_parse N c tree, obs_parse with
+  let tie1 := match sax_parse N c itree, obs_parse with
               | None, None => true
               | Some l, Some l' => lclose (sax_entry_close tol) l l'
               | _, _ => false
               end in
-  let tie2 := tie_plain tol (sax_flatten N c tree) obs_flat in
+  (* arcs of an element under a non-identity matrix: end points only *)
+  let fullf (i : nat) : bool :=
+      match sax_parse N c itree with
+      | Some l => match find_obs i (map (fun e : nat * list qseg * option qmat => (fst (fst e), snd e)) l) with
+                  | Some (Some M) => is_identity M
+                  | _ => true
+                  end
+      | None => true
+      end in
+  let tie2 := tie_plain_f tol fullf (sax_flatten N c itree) obs_flat in
   let refl := ref_paths N tree in
   (* property: flatten_all_paths returns the reference geometry, and the
      matrices recorded by the constructor are the reference's *)
@@ -221,15 +244,15 @@ Inductive obs :=
 | OSaxMat (p : option (list (nat * list qseg * option qmat))).
 
 (* [c]: the variant of the code the harness detected (Model/SvgTree.v cfg) *)
-Definition check_case (c : cfg) (x : Qc * qnode * obs) : nat :=
-  let '(tol, tree, o) := x in
+Definition check_case (c : cfg) (x : Qc * qnode * qnode * obs) : nat :=
+  let '(tol, tree, itree, o) := x in
   match o with
-  | ODocument x => check_document c tol tree x
-  | OGroup t x => check_from_group c true tol tree t x
-  | OGroupNR t x => check_from_group c false tol tree t x
-  | OSvg2paths x => check_svg2paths c tol tree x
-  | OSax p f => check_sax c false tol tree p f
-  | OSaxMat p => check_sax c true tol tree p None
+  | ODocument x => check_document c tol tree itree x
+  | OGroup t x => check_from_group c true tol tree itree t x
+  | OGroupNR t x => check_from_group c false tol tree itree t x
+  | OSvg2paths x => check_svg2paths c tol tree itree x
+  | OSax p f => check_sax c false tol tree itree p f
+  | OSaxMat p => check_sax c true tol tree itree p None
   end.
 
 (* SaxDocument load -> save (generate_dom) -> reload, used by the C18 harness:
